@@ -26,6 +26,7 @@ is a shape the extractor does not understand (fail-closed, less serious, still w
     comprehension-forms / comprehension-calls   set(x for ..) <-> {x for ..}, list(..) <-> [..], dict((k, v) for ..) <-> {k: v for ..}
     swap-independent   x = <pure>; y = <pure>  ->  y = <pure>; x = <pure>
     annotate-locals   x = e  ->  x: object = e ;  add-asserts   a tautological assert on the first parameter at the top of every function
+    hoist-strings  a string literal used twice in the functions of a module becomes a module-level constant
     extract-alias  .. x.costs[a] .. x.costs[b] ..  ->  alias = x.costs; .. alias[a] .. alias[b] ..
     inline-alias   c = x.costs; .. c[k] ..  ->  .. x.costs[k] ..   (top-level local bound once to an attribute chain of a parameter)
 
@@ -593,6 +594,58 @@ class AddAsserts(Rewrite):
         return node
 
 
+
+class HoistStrings(Rewrite):
+    """"color" ... "color"  ->  _K0 = "color" at module level; ... _K0 ... _K0   (string literals used at least twice
+    inside functions of the module, outside f-strings, annotations and docstrings)"""
+
+    def visit_Module(self, node):
+        counts = {}
+        skip = set()
+        for n in ast.walk(node):
+            if isinstance(n, ast.JoinedStr):
+                skip.update(id(x) for x in ast.walk(n))
+            if isinstance(n, (ast.FunctionDef, ast.AsyncFunctionDef, ast.ClassDef, ast.Module)):
+                body = n.body
+                if body and isinstance(body[0], ast.Expr) and isinstance(body[0].value, ast.Constant):
+                    skip.add(id(body[0].value))
+            if isinstance(n, (ast.arg,)) and n.annotation is not None:
+                skip.update(id(x) for x in ast.walk(n.annotation))
+            if isinstance(n, (ast.FunctionDef, ast.AsyncFunctionDef)) and n.returns is not None:
+                skip.update(id(x) for x in ast.walk(n.returns))
+            if isinstance(n, ast.AnnAssign):
+                skip.update(id(x) for x in ast.walk(n.annotation))
+        in_fn = set()
+        for f in ast.walk(node):
+            if isinstance(f, (ast.FunctionDef, ast.AsyncFunctionDef)):
+                for x in ast.walk(f):
+                    if isinstance(x, ast.Constant) and isinstance(x.value, str) and len(x.value) >= 3 and id(x) not in skip:
+                        in_fn.add(id(x))
+                        counts[x.value] = counts.get(x.value, 0) + 1
+        # a literal that is a dictionary key of a call keyword etc. is still an expression: fine
+        chosen = {v: f"_K{i}_EQ" for i, (v, c) in enumerate(sorted(counts.items())) if c >= 2}
+        if not chosen or not self.hit():
+            return node
+
+        class Sub(ast.NodeTransformer):
+            def visit_Constant(self, n):
+                if id(n) in in_fn and n.value in chosen:
+                    return ast.Name(id=chosen[n.value], ctx=ast.Load())
+                return n
+
+            def visit_JoinedStr(self, n):
+                return n
+
+        node = Sub().visit(node)
+        defs = [ast.Assign(targets=[ast.Name(id=name, ctx=ast.Store())], value=ast.Constant(value=v)) for v, name in chosen.items()]
+        start = 0
+        for i, st in enumerate(node.body):
+            if isinstance(st, (ast.Import, ast.ImportFrom)) or (isinstance(st, ast.Expr) and isinstance(st.value, ast.Constant)):
+                start = i + 1
+        node.body = node.body[:start] + defs + node.body[start:]
+        return node
+
+
 def package_signatures(prog):
     seen, dup = {}, set()
     for mod in prog.modules.values():
@@ -637,6 +690,7 @@ REWRITES = {
     "swap-independent": lambda sig, only: SwapIndependent(only),
     "annotate-locals": lambda sig, only: AnnotateLocals(only),
     "add-asserts": lambda sig, only: AddAsserts(only),
+    "hoist-strings": lambda sig, only: HoistStrings(only),
 }
 
 
